@@ -57,6 +57,8 @@ Schema(s) ==
     [] s = 7 -> (* case-insensitive context: titles of multi sections, unique titles *)
          << DSec("t", {"MULTI","TITLE"}, << DInt("x", "5") >>),
             DSec("u", {"MULTI","TITLE","NO_TITLE_DUPES"}, << DInt("x", "5") >>) >>
+    [] s = 10 -> (* annotations next to long quoted values (scratch buffer reuse in the scanner) *)
+         << DStr("s", "d"), DInt("i", "7") >>
     [] s = 9 -> (* one titled multi section with a pointer: replacement in place, release of the old instance *)
          << DSec("t", {"MULTI","TITLE"}, << DInt("x", "5"), DPtr("p") >>) >>
     [] s = 8 -> (* two lists with defaults: interplay of consecutive list assignments *)
@@ -74,6 +76,7 @@ ValuePool(s) ==
     [] s = 7 -> {"1"}
     [] s = 8 -> {"1"}
     [] s = 9 -> {"1"}
+    [] s = 10 -> {"1", "a b c d e f"}
 TitlePool(s) == IF s \in {2, 3, 4} THEN (IF Mode = "ignore" THEN {"a"} ELSE {"a", "b"})
                 ELSE IF s = 7 THEN {"a", "A"} ELSE IF s = 9 THEN {"a"} ELSE {}
 
